@@ -199,6 +199,8 @@ def run(tier, workers=None):
     cfgs = [
         Config(front="wsgi", backend="tree", prefix="/dav/", names=names, bodies=bodies, features=set()),
         Config(front="aio", backend="tree", prefix="/", names=names, bodies=bodies, features=set()),
+        # a route prefix made of the same characters as the first path segment below it (/user/user/calendars/...)
+        Config(front="wsgi", backend="tree", prefix="/user/", names=names, bodies=bodies, features=set()),
     ]
     if tier == "thorough":
         cfgs += [
